@@ -280,7 +280,7 @@ def cases(tier, seed, shard, nshards):
             yield case
         i += 1
     rng = random.Random(f"{seed}:{ID}:{shard}")
-    nrand = (5000 if tier == "quick" else 120000) // nshards
+    nrand = (3000 if tier == "quick" else 80000) // nshards
     for _ in range(nrand):
         yield _rand_case(rng)
 
